@@ -92,6 +92,10 @@ func (pass *InlineObjectsWithTypes) processRef(_ *Visitor, _ *ast.Schema, def as
 		// the reference being inlined was nullable (optional field, ...)
 		typeDef.Nullable = true
 	}
+	if def.Default != nil {
+		// the default declared where the reference is used wins over the default of the referred object
+		typeDef.Default = def.Default
+	}
 	typeDef.AddToPassesTrail(fmt.Sprintf("InlineObjectsWithTypes[original=%s]", def.Ref.String()))
 
 	return typeDef, nil
